@@ -139,6 +139,61 @@ def jsSingleQuotedSimple : Str → Option Str
     if c == 92 || c == 39 || c == 10 || c == 13 then none
     else (jsSingleQuotedSimple rest).map (c :: ·)
 
+/-- The value (UTF-16 code units) of the single-quoted JavaScript string literal `'<body>'` in
+strict mode — how the non-persisted operation text reaches the network layer (query_text.ts is
+`export default '<text>';`).  Same escape rules as `jsStringBody`, with `'` as the delimiter. -/
+def jsSingleQuotedBody : Nat → List Nat → Option (List Nat)
+  | 0, _ => none
+  | _, [] => some []
+  | fuel + 1, c :: rest =>
+    if c == 39 then none
+    else if c == 10 || c == 13 then none
+    else if c != 92 then (jsSingleQuotedBody fuel rest).map (utf16Char c ++ ·)
+    else
+      match rest with
+      | [] => none
+      | e :: rest2 =>
+        let simple (u : Nat) := (jsSingleQuotedBody fuel rest2).map (u :: ·)
+        if e == 110 then simple 10
+        else if e == 116 then simple 9
+        else if e == 114 then simple 13
+        else if e == 98 then simple 8
+        else if e == 102 then simple 12
+        else if e == 118 then simple 11
+        else if e == 48 then
+          match rest2 with
+          | d :: _ => if 48 ≤ d ∧ d ≤ 57 then none else simple 0
+          | [] => simple 0
+        else if 49 ≤ e ∧ e ≤ 57 then none
+        else if e == 120 then
+          match rest2 with
+          | a :: b :: rest3 =>
+            match hexDigitsVal [a, b] with
+            | some v => (jsSingleQuotedBody fuel rest3).map (v :: ·)
+            | none => none
+          | _ => none
+        else if e == 117 then
+          match rest2 with
+          | 123 :: rest3 =>
+            match takeBraced (rest3.length + 1) rest3 [] with
+            | some (v, rest4) => (jsSingleQuotedBody fuel rest4).map (utf16Char v ++ ·)
+            | none => none
+          | a :: b :: c2 :: d :: rest3 =>
+            match hexDigitsVal [a, b, c2, d] with
+            | some v => (jsSingleQuotedBody fuel rest3).map (v :: ·)
+            | none => none
+          | _ => none
+        else if e == 10 || e == 0x2028 || e == 0x2029 then jsSingleQuotedBody fuel rest2
+        else if e == 13 then
+          match rest2 with
+          | 10 :: rest3 => jsSingleQuotedBody fuel rest3
+          | _ => jsSingleQuotedBody fuel rest2
+        else (jsSingleQuotedBody fuel rest2).map (utf16Char e ++ ·)
+
+/-- the operation the non-persisted build sends: the JavaScript value of the embedded text -/
+def jsSingleQuotedValue (body : Str) : Option Str :=
+  (jsSingleQuotedBody (body.length + 1) body).map utf16Decode
+
 /-! ### files -/
 
 /-- `// {header}\n` in front of every file when `generated_file_header` is set -/
